@@ -166,3 +166,59 @@ def evalTextObjDelim (s : MS) (opener closer : Gr) (around : Bool) : MK :=
 
 end Delim
 end Vicut
+
+/-! Quote text objects `i"` `a"` `i'` `a'` `` i` `` `` a` `` (`text_obj_quote`) -/
+
+namespace Vicut
+namespace Quote
+
+def bs : Gr := ['\\']
+def isBsAt (gs : List Gr) (i : Nat) : Bool := gs[i]? == some bs
+
+/-- The backward scan of `text_obj_quote` over the positions before the cursor on its line (descending):
+a quote counts when an even number of backslashes stands directly before it; the scan of the backslash run
+also consumes the position before the run (`while let Some(idx) = backward_indices.next()`), which is
+therefore never looked at. -/
+def back (gs : List Gr) (q : Gr) : Nat → List Nat → Option Nat
+  | 0, _ => none
+  | _, [] => none
+  | f + 1, i :: rest =>
+    match gs[i]? with
+    | none => none
+    | some g =>
+      if g = q then
+        if (rest.takeWhile (isBsAt gs)).length % 2 = 0 then some i
+        else back gs q f ((rest.dropWhile (isBsAt gs)).drop 1)
+      else back gs q f rest
+
+/-- The forward scan: the next quote; a backslash skips the position after it. -/
+def fwd (gs : List Gr) (q : Gr) : Nat → List Nat → Option (Nat × List Nat)
+  | 0, _ => none
+  | _, [] => none
+  | f + 1, i :: rest =>
+    match gs[i]? with
+    | none => none
+    | some g =>
+      if g = bs then fwd gs q f (rest.drop 1)
+      else if g = q then some (i, rest)
+      else fwd gs q f rest
+
+/-- `text_obj_quote(count, obj, bound)` (the count is ignored; only the cursor's line is looked at) -/
+def textObjQuote (s : MS) (q : Gr) (around : Bool) : Option (Nat × Nat) :=
+  let pair : Option (Nat × Nat) :=
+    match back s.gs q (s.cur + 1) (List.range' s.sol (s.cur - s.sol)).reverse with
+    | some st => (fwd s.gs q (s.eol + 1) (List.range' (st + 1) (s.eol - (st + 1)))).map (fun r => (st, r.1))
+    | none =>
+      match fwd s.gs q (s.eol + 1) (List.range' s.cur (s.eol - s.cur)) with
+      | none => none
+      | some (st, rest) => (fwd s.gs q (s.eol + 1) rest).map (fun r => (st, r.1))
+  pair.map (fun (st, e) =>
+    if around then (st, Delim.extendWs s s.eol (s.eol - (e + 1)) (e + 1)) else (st + 1, e))
+
+def evalTextObjQuote (s : MS) (q : Gr) (around : Bool) : MK :=
+  match textObjQuote s q around with
+  | none => .null
+  | some (a, b) => .exclusive a b
+
+end Quote
+end Vicut
